@@ -122,6 +122,49 @@ def leg_msgpack_docs(chk, tier):
     chk.add_cases(len(pairs), distinct_keys=(("docs", json.dumps(s["doc"]), json.dumps(s["root"]), json.dumps(s["pol"])) for s in sc + sf), validated=len(pairs))
 
 
+def leg_text_docs(chk, tier):
+    """JSON and XML: valid documents (UTF-8, with and without BOM) of the C08 space and every damaged variant of MC_DocDamage, loaded
+    from memory and through every stream kind: the outcomes must agree (error category, or the delivered events)."""
+    from checks import mpcommon as mp
+    quick = tier == "quick"
+    for arch in ("json", "xml"):
+        sc = mp.gen("MC_LoadScript", {"Arch": '"%s"' % arch, "Mode": '"typed"', "MaxOps": 0, "Widths": "{0, 1}" if quick else "{0, 1, 2}", "Pads": "{0}",
+                                      "TypedTargets": '{"i32", "str", "vec_i32", "objscope"}' if quick else "{}"},
+                    ["Export"], "c10-%s-typed" % arch, chk, timeout=3000, xmx="6g")
+        sc = [s for s in sc if s.get("meta", {}).get("enc", "utf8") == "utf8" and s["root"]["k"] != "leaf"]
+        step = max(1, len(sc) // (60 if quick else 600))
+        base = sc[::step]
+        dp = os.path.join(vlib.scratch(), "c10_%s_docs.ndjson" % arch)
+        vlib.write_ndjson(dp, [{"id": i, "doc": s["doc"]} for i, s in enumerate(base)])
+        cfg = write_cfg("mc_damage_%s.cfg" % arch, 'SPECIFICATION Spec\nCONSTANTS\n  Arch = "%s"\n  MaxCuts = %d\n  FlipBytes = %s\n  MaxFlipLen = %d\nINVARIANT Export\n' % (
+            arch, 3 if quick else 12, "{0, 34, 60, 123}" if quick else "{0, 32, 34, 44, 60, 62, 91, 123, 125, 128, 255}", 40 if quick else 90))
+        r = tlc("MC_DocDamage", cfg=cfg, env={"DOCS": dp}, timeout=3000, xmx="6g")
+        chk.add_tlc("MC_DocDamage (%s)" % arch, r, {"documents": len(base)})
+        scen = [dict(base[g["src"] - 1], doc=g["doc"], kind=g["kind"]) for g in r.printed("GEN")]
+        pairs = mp.replay(scen, ["mem", "sstream", "short1", "short3", "nonseek", "file"], 8, "t" + arch[0], arch)
+        by = {}
+        for s, o in pairs:
+            by.setdefault(id(s), (s, []))[1].append(o)
+        for s, obs in by.values():
+            mem = [o for o in obs if o["medium"] == "mem"]
+            if not mem or "e" in mem[0]:
+                if mem:
+                    chk.fail("%s memory load: %s" % (arch, mem[0]["e"]), {"scenario": {k: s[k] for k in ("doc", "root", "pol", "kind")}, "memory": mem[0]})
+                continue
+            for o in obs:
+                if o["medium"] == "mem":
+                    continue
+                same = "e" not in o and o["exc"] == mem[0]["exc"] and (o["exc"] != ["none"] or o["ev"] == mem[0]["ev"])
+                if not same:
+                    chk.fail("%s: memory and %s loading differ on a %s document: %s vs %s" % (arch, o["medium"], s["kind"], json.dumps(mem[0]["exc"]), o.get("e") or json.dumps(o["exc"])),
+                             {"scenario": {k: s[k] for k in ("doc", "root", "pol", "kind")}, "document": bytes(s["doc"]).decode("latin-1")[:200], "memory": mem[0], "stream": o})
+        chk.add_cases(len(pairs), distinct_keys=((arch, json.dumps(s["doc"]), json.dumps(s["root"]), json.dumps(s["pol"])) for s in scen), validated=len(pairs))
+        kinds = {}
+        for s in scen:
+            kinds[s["kind"]] = kinds.get(s["kind"], 0) + 1
+        chk.cov.setdefault("text_documents_by_kind", {})[arch] = kinds
+
+
 def leg_save_identity(chk, tier):
     """Saving to a stream (UTF-8, no BOM) yields exactly the bytes of saving to memory: MsgPack and JSON writers."""
     from checks import mpcommon as mp
@@ -149,6 +192,7 @@ def run_check(tier):
                         "stream kinds are the harness test doubles: stringstream, short-read (1/3/64 bytes per underflow), non-seekable"]
     leg_binstream(chk, tier)
     leg_msgpack_docs(chk, tier)
+    leg_text_docs(chk, tier)
     leg_save_identity(chk, tier)
     return chk.finish()
 
